@@ -67,6 +67,11 @@ type ExecutionContext struct {
 	template   *Template
 	macroDepth int
 
+	// tagState holds what tags have to remember during ONE rendering (e. g. the
+	// position of a cycle tag). It is shared by all contexts derived from the
+	// one the rendering started with; the compiled template itself stays untouched.
+	tagState map[INode]any
+
 	Autoescape bool
 	Public     Context
 	Private    Context
@@ -89,7 +94,22 @@ func newExecutionContext(tpl *Template, ctx Context) *ExecutionContext {
 		Public:     ctx,
 		Private:    privateCtx,
 		Autoescape: autoescape,
+		tagState:   make(map[INode]any),
 	}
+}
+
+// stateFor returns the state a tag keeps for the current rendering, creating
+// it with mk on first use.
+func (ctx *ExecutionContext) stateFor(node INode, mk func() any) any {
+	if ctx.tagState == nil {
+		ctx.tagState = make(map[INode]any)
+	}
+	st, ok := ctx.tagState[node]
+	if !ok {
+		st = mk()
+		ctx.tagState[node] = st
+	}
+	return st
 }
 
 func NewChildExecutionContext(parent *ExecutionContext) *ExecutionContext {
@@ -99,6 +119,7 @@ func NewChildExecutionContext(parent *ExecutionContext) *ExecutionContext {
 		Public:     parent.Public,
 		Private:    make(Context),
 		Autoescape: parent.Autoescape,
+		tagState:   parent.tagState,
 	}
 	newctx.Shared = parent.Shared
 
